@@ -388,6 +388,49 @@ fn run(job: &Job, out: &mut JobOut) {
     }
 }
 
+/// A data set above 16 MiB with two trailing axes (33 x 260 x 250 f64, and 33 x 250 x 260): every
+/// lane of the n-d spline against the spline built from that lane alone.
+fn run_big(trailing: (usize, usize), top: &BcSpec, out: &mut JobOut) {
+    use ndarray_interp::interp1d::cubic_spline::CubicSpline;
+    use ndarray_interp::interp1d::Interp1DBuilder;
+    use ndarray::{Array1 as A1, Array3};
+    let n = 33usize;
+    let (ta, tb) = trailing;
+    let x: Vec<f64> = (0..n).map(|i| i as f64 + if i % 5 == 2 { 0.25 } else { 0.0 }).collect();
+    let val = |i: usize, a: usize, b: usize| -> f64 { GENERIC[(i * 3 + a * 5 + b * 7) % 11] * (1 + (a + 2 * b) % 3) as f64 + 0.001 * (a * tb + b) as f64 };
+    let periodic = top.is_periodic();
+    let data = Array3::from_shape_fn((n, ta, tb), |(i, a, b)| val(if periodic && i == n - 1 { 0 } else { i }, a, b));
+    let q = A1::from(vec![0.5, 7.3, 31.75]);
+    let key = format!("big:{n}x{ta}x{tb}:{}", top.name());
+    let strat = || CubicSpline::new().boundary(nimc::subj::boundary::<f64, ndarray::Ix3>(top, &[ta, tb]));
+    let res = match catch(|| Interp1DBuilder::new(data.view()).x(A1::from(x.clone())).strategy(strat()).build().map(|ip| ip.interp_array(&q))) {
+        Ok(Ok(Ok(r))) => r,
+        other => {
+            out.violate(format!("{key}:build"), format!("valid large data set not handled: {:?}", other.map(|r| r.map(|r| r.map(|_| ())))), Json::Null);
+            return;
+        }
+    };
+    out.states += 1;
+    let xa = A1::from(x.clone());
+    let lane_strat = || CubicSpline::new().boundary(nimc::subj::boundary::<f64, ndarray::Ix1>(top, &[]));
+    'lanes: for a in 0..ta {
+        for b in 0..tb {
+            let col = data.slice(ndarray::s![.., a, b]).to_owned();
+            let alone = Interp1DBuilder::new(col).x(xa.clone()).strategy(lane_strat()).build().expect("lane alone").interp_array(&q).expect("in range");
+            out.evals += 1;
+            out.nontrivial += 1;
+            out.transitions += 1;
+            for k in 0..q.len() {
+                if !((alone[k] - res[[k, a, b]]).abs() <= 1e-10 * 50.0) {
+                    out.violate(key.clone(), format!("lane ({a},{b}) of the {n} x {ta} x {tb} data set gives {:e} at q = {}, the spline built from that lane alone {:e}", res[[k, a, b]], q[k], alone[k]), Json::Null);
+                    break 'lanes;
+                }
+            }
+        }
+    }
+    out.sample = Some(Json::str(&key));
+}
+
 fn body(ctx: &Ctx) -> (Summary, Meta) {
     let quick = ctx.quick();
     let mut axes = if quick {
@@ -493,9 +536,16 @@ fn body(ctx: &Ctx) -> (Summary, Meta) {
         run(j, &mut out);
         out
     });
+    let big_jobs: Vec<((usize, usize), BcSpec)> = vec![((260, 250), BcSpec::TopNotAKnot), ((250, 260), BcSpec::TopNatural), ((260, 250), BcSpec::Periodic)];
+    let mut sum = sum;
+    sum.merge(run_jobs(ctx, "data-above-16MiB", &big_jobs, |j| format!("big:{:?}:{}", j.0, j.1.name()), |j| {
+        let mut out = JobOut::default();
+        run_big(j.0, &j.1, &mut out);
+        out
+    }));
     let _ = (Array1::<f64>::zeros(1), Axis(0));
     let meta = Meta {
-        rule: "for every (axis, trailing shape incl. length-0/1 and non-square ones, static Ix1..Ix6 or dynamic rank, strategy / boundary configuration incl. a different condition per lane, all 216 assignments of 6 row conditions to 3 lanes, and 4 different conditions on a square (2,2) trailing shape; data replicated along the last trailing axis with one lane's condition differing at every position / all 81 assignments of 3 conditions to 4 lanes): (a) every lane of the n-d result is compared with the interpolator built from that lane (and its own boundary condition) alone; (b) for every lane i, rebuilding with lane i set to NaN / +inf / other values x 2^20 / another boundary condition leaves every other lane bit-identical. Every comparison is non-trivial.".into(),
+        rule: "for every (axis, trailing shape incl. length-0/1 and non-square ones, static Ix1..Ix6 or dynamic rank, strategy / boundary configuration incl. a different condition per lane, all 216 assignments of 6 row conditions to 3 lanes, and 4 different conditions on a square (2,2) trailing shape; data replicated along the last trailing axis with one lane's condition differing at every position / all 81 assignments of 3 conditions to 4 lanes): (a) every lane of the n-d result is compared with the interpolator built from that lane (and its own boundary condition) alone; (b) for every lane i, rebuilding with lane i set to NaN / +inf / other values x 2^20 / another boundary condition leaves every other lane bit-identical. Phase data-above-16MiB: 33 x 260 x 250 (and 250 x 260) f64 data sets, every one of the 65000 lanes against its stand-alone spline. Every comparison is non-trivial.".into(),
         bounds: format!("{njobs} (axis, trailing shape, rank kind, configuration) jobs; tier {}", ctx.tier.name()),
         assumptions: vec!["(a) is required within rounding (K eps scale); bit-identity is reported as an observed outcome".into()],
         extra: vec![],
